@@ -54,7 +54,7 @@ func init() {
 
 	addProp(&PropSpec{
 		ID:    "C19",
-		Rules: []string{"R-IMMUT-AST", "R-GLOBALS", "R-EXECFRESH", "R-AMBIENT", "R-INPUT-RO", "R-COLLGUARD", "R-VARSIDENT"},
+		Rules: []string{"R-IMMUT-AST", "R-GLOBALS", "R-EXECFRESH", "R-AMBIENT", "R-INPUT-RO", "R-COLLGUARD", "R-VARSIDENT", "R-STATE"},
 		Explanation: "Static form of data-race freedom and history independence: absence of shared writable state. " +
 			"Decided over every function reachable (VTA call graph, through dependencies) from every read operation of a Path and from Parse: " +
 			"no write to memory owned by a parsed AST, no write to package-level state, a fresh Executor per call that never escapes, no ambient input. " +
@@ -92,7 +92,7 @@ func init() {
 	register(rulePanicParse, ruleParseResult)
 	addProp(&PropSpec{
 		ID:          "C04",
-		Rules:       []string{"R-PANIC-PARSE", "R-PARSE-RESULT", "R-NILNODE", "R-REGEXFLAGS", "R-VALIDATE", "R-COMMENT", "R-TOKENRANGE", "R-ERRDISCARD", "R-NILOUT"},
+		Rules:       []string{"R-PANIC-PARSE", "R-PARSE-RESULT", "R-NILNODE", "R-REGEXFLAGS", "R-VALIDATE", "R-COMMENT", "R-TOKENRANGE", "R-CHARCLASS", "R-ERRDISCARD", "R-NILOUT"},
 		Explanation: "Totality of Parse as a shape of the code: every construct that can raise a panic explicitly below Parse/Scan/Unmarshal* is enumerated over the call graph and must be contained by a recovering root that returns the documented error.",
 		Decided:     []string{"R-PANIC-PARSE: explicit panics, Must* calls and comma-less type assertions below the parse roots are contained by a deferred recover in parser.Parse that reports ErrParse", "R-PARSE-RESULT: (tree, nil) or (nil, sentinel-wrapped error) at every level; MustParse panics exactly on the error branch", "R-NILNODE: no action publishes a nil node without recording an error", "R-REGEXFLAGS: every like_regex accepted at parse time compiles at execution time (flag translation for all 32 flag sets; same pattern and flags validated, stored, compiled; the validator accepts only after regexp/syntax.Parse succeeded)", "R-VALIDATE: `@` outside a filter and `last` outside a subscript are rejected, and accepted inside: decision table of the placement validator over node kind × depth × in-subscript, for every recursive call on every path"},
 		NotDecided:  []string{"termination of the lexer loops", "the goyacc runtime (trusted)", "size limits of regexp compilation"},
@@ -144,7 +144,7 @@ func init() {
 	register(rulePanicExec)
 	addProp(&PropSpec{
 		ID:          "C05",
-		Rules:       []string{"R-PANIC-EXEC", "R-EXH", "R-ERRSITES", "R-ERRCLASS", "R-INPUT-RO", "R-BCE-EXEC", "R-LISTINDEX", "R-FINITE", "R-DIV", "R-REGEXFLAGS", "R-NILOUT", "R-ADDRKEY"},
+		Rules:       []string{"R-PANIC-EXEC", "R-EXH", "R-ERRSITES", "R-ERRCLASS", "R-INPUT-RO", "R-BCE-EXEC", "R-LISTINDEX", "R-FINITE", "R-DIV", "R-REGEXFLAGS", "R-NILOUT", "R-ADDRKEY", "R-OKFLAG"},
 		Explanation: "Totality and error classification of execution as shapes of the code. Every explicit panic site and every ErrInvalid construction reachable from the entry points is shown infeasible by an abstract interpretation whose universes are derived from the repository: node shapes per operand slot from the goyacc grammar's actions, enum constants, the 13 documented item types, the 5 datetime types; call sites are expanded three levels up and callbacks stay paired with their call site. Every error that can reach an entry point wraps ErrExecution or is NULL (Exists/Match only).",
 		Decided: []string{"R-PANIC-EXEC: no feasible explicit panic / Must* / unchecked assertion below the entry points", "R-BCE-EXEC: every index/slice operation of package exec is proven in bounds by the compiler or by one of three structural arguments (length-tested constant index, loop between bounds the callee clamps on every successful return, stringer name longer than the slice offset)", "R-LISTINDEX: constant-index reads of item sequences are length-tested", "R-INPUT-RO: no write into caller-owned containers, and no caller-owned container is adopted as the backing store of a result list",
 			"R-EXH: no feasible ErrInvalid construction for parser-produced paths and documented item types",
@@ -158,7 +158,7 @@ func init() {
 func init() {
 	addProp(&PropSpec{
 		ID:          "C12",
-		Rules:       []string{"R-CMPMATRIX", "R-CMPTABLE", "R-STRPRED", "R-PREDLOOP", "R-REGEXFLAGS", "R-TOWER", "R-F2I", "R-ZONE", "R-CMPNORM", "R-EXECADDR", "R-EXACTCMP", "R-CTXZONE"},
+		Rules:       []string{"R-CMPMATRIX", "R-CMPTABLE", "R-STRPRED", "R-PREDLOOP", "R-REGEXFLAGS", "R-TOWER", "R-F2I", "R-ZONE", "R-CMPNORM", "R-EXECADDR", "R-EXACTCMP", "R-CTXZONE", "R-OKFLAG"},
 		Explanation: "The comparison layer is a stack of finite decision procedures, each extracted and compared with the stated order: the type dispatch as a 13×13 matrix obtained by walking the dispatcher once per ordered pair of item types (abstract interpretation with singleton type sets, descending into the datetime 5×5 helpers), the operator×sign table, the boolean and numeric three-way helpers, the lax-existential/strict-universal pairwise loop, the like_regex flag translation for all 32 flag sets, and the numeric tower as sibling agreement of type switches.",
 		Decided: []string{"R-CMPMATRIX: which pairs are comparable / null rule / unknown / incomparable / guarded by WithTZ (169 cells)",
 			"R-CMPTABLE: ==,!=,<,>,<=,>= applied to a sign; false<true; −1/0/+1 for </=/> (antisymmetry and duality are properties of these tables)",
@@ -171,7 +171,7 @@ func init() {
 func init() {
 	addProp(&PropSpec{
 		ID:          "C03",
-		Rules:       []string{"R-GRAMSYNC", "R-PREC", "R-KEYWORDS", "R-VOCAB", "R-OPTOKENS", "R-LEXRESET", "R-PRED", "R-NILNODE", "R-RUNEWRITE", "R-COMMENT", "R-FOLD", "R-NUMLIT", "R-EMPTYPROD", "R-RUNESTEP", "R-RUNEERR", "R-NARROW", "R-TOKENRANGE", "R-ERRDISCARD", "R-PARSE-RESULT", "R-GLOBALS", "R-NILOUT", "R-CTORID"},
+		Rules:       []string{"R-GRAMSYNC", "R-PREC", "R-KEYWORDS", "R-VOCAB", "R-OPTOKENS", "R-LEXRESET", "R-PRED", "R-NILNODE", "R-RUNEWRITE", "R-COMMENT", "R-FOLD", "R-NUMLIT", "R-EMPTYPROD", "R-RUNESTEP", "R-RUNEERR", "R-NARROW", "R-TOKENRANGE", "R-CHARCLASS", "R-ERRDISCARD", "R-PARSE-RESULT", "R-GLOBALS", "R-NILOUT", "R-CTORID"},
 		Explanation: "'Every spelling parses to the tree the grammar assigns it' has a large structural part: the compiled parser must be the grammar (goyacc is re-run and the result compared as syntax trees), the grammar must be conflict-free so that the precedence declarations decide nesting, the keyword table must agree with the grammar's tokens and key names, keywords that the printer emits must lead back to the same constants, the token buffer must never be dropped without an error, and the predicate flag must be set by exactly one production. These are agreements between sibling tables (lexer, grammar, generated parser, printer), decided from the sources.",
 		Decided: []string{"R-GRAMSYNC: grammar.go = goyacc(grammar.y); 0 conflicts", "R-PREC: declared precedence/associativity ↔ operator constants (via the actions)",
 			"R-KEYWORDS: one lower-case spelling per keyword token, true/false/null case-sensitive, every keyword usable as key name", "R-VOCAB: printed keyword → lexer → token → production → same constant",
